@@ -414,7 +414,7 @@ func gen(t *rapid.T) Case {
 
 func TestHooks(t *testing.T) {
 	defer simworld.Discard()
-	vh.Check(t, prop, gen, run)
+	vh.Check(t, prop, gen, vh.Confirmed(run))
 }
 
 func call(trigger string, w int, await string, aw int) hooklib.Hook {
@@ -425,12 +425,12 @@ func TestFixed(t *testing.T) {
 	defer simworld.Discard()
 	vh.Fixed(t, prop, "weights-and-groups", Case{NTasks: 1, Walk: []string{"START_ACTIVITY", "STOP_ACTIVITY"}, Hooks: []hooklib.Hook{
 		call("before_START_ACTIVITY", -2, "", 0), call("before_START_ACTIVITY", -2, "", 0), call("before_START_ACTIVITY", 0, "", 0), call("before_START_ACTIVITY", 3, "", 0),
-		call("leave_RUNNING", 1, "", 0), call("leave_RUNNING", -1, "", 0), call("enter_CONFIGURED", 0, "", 0), call("after_STOP_ACTIVITY", 2, "", 0), call("after_STOP_ACTIVITY", 2, "", 0)}}, run)
+		call("leave_RUNNING", 1, "", 0), call("leave_RUNNING", -1, "", 0), call("enter_CONFIGURED", 0, "", 0), call("after_STOP_ACTIVITY", 2, "", 0), call("after_STOP_ACTIVITY", 2, "", 0)}}, vh.Confirmed(run))
 	vh.Fixed(t, prop, "deferred-awaits", Case{NTasks: 1, Walk: []string{"START_ACTIVITY", "STOP_ACTIVITY", "RESET"}, Hooks: []hooklib.Hook{
 		call("before_START_ACTIVITY", -1, "before_START_ACTIVITY", 2), call("before_START_ACTIVITY", 0, "leave_CONFIGURED", -1), call("after_START_ACTIVITY", 0, "before_STOP_ACTIVITY", 0),
-		call("leave_CONFIGURED", 0, "after_GO_ERROR", 0), call("before_CONFIGURE", 0, "after_CONFIGURE", -1), call("before_CONFIGURE", 1, "after_CONFIGURE", 0), call("enter_RUNNING", 0, "after_RESET", 1)}}, run)
+		call("leave_CONFIGURED", 0, "after_GO_ERROR", 0), call("before_CONFIGURE", 0, "after_CONFIGURE", -1), call("before_CONFIGURE", 1, "after_CONFIGURE", 0), call("enter_RUNNING", 0, "after_RESET", 1)}}, vh.Confirmed(run))
 	vh.Fixed(t, prop, "teardown-hooks", Case{NTasks: 1, Walk: []string{"START_ACTIVITY"}, Hooks: []hooklib.Hook{
-		call("leave_RUNNING", 0, "", 0), call("DESTROY", -1, "", 0), call("DESTROY", 1, "", 0), call("after_DESTROY", 0, "", 0), call("before_DEPLOY", 0, "", 0), call("after_DEPLOY", -3, "", 0)}}, run)
+		call("leave_RUNNING", 0, "", 0), call("DESTROY", -1, "", 0), call("DESTROY", 1, "", 0), call("after_DESTROY", 0, "", 0), call("before_DEPLOY", 0, "", 0), call("after_DEPLOY", -3, "", 0)}}, vh.Confirmed(run))
 }
 
 // ---------------------------------------------------------------------------------------------
